@@ -479,7 +479,7 @@ func TestSim(t *testing.T) {
 		cfg.Mode = "random"
 		cfg.WFault = rng.Intn(3) == 0
 		if mode == "c11" {
-			cfg.Tries = []int{0, 1, 2, 3, 4, -1}[rng.Intn(6)]
+			cfg.Tries = []int{0, 1, 2, 3, 4, -1, 0, 1, 2, 3, 4, -1, -2, -7}[rng.Intn(14)] // any negative count retries until cancelled
 		}
 		nd := rng.Intn(9)
 		if cfg.BufCap == 1 && rng.Intn(2) == 0 {
@@ -492,10 +492,13 @@ func TestSim(t *testing.T) {
 	if mode == "c11" {
 		for _, v4 := range []bool{true, false} {
 			for _, T := range []int{1, 2, 5} {
-				for n := -1; n <= 6; n++ {
+				for n := -2; n <= 6; n++ {
 					kmax := n
 					if n < 0 {
 						kmax = 3
+					}
+					if n == -2 && T != 1 {
+						continue
 					}
 					for k := 0; k <= kmax; k++ {
 						for where := 0; where < 3; where++ {
@@ -553,7 +556,7 @@ func TestSim(t *testing.T) {
 				}
 			}
 			for i := 0; i < 6; i++ {
-				cfg := Cfg{T: 1 + rng.Intn(3), Tries: []int{1, 2, 3, 4, -1}[rng.Intn(5)], BufCap: []int{1, 5}[rng.Intn(2)], V4: v4, Timed: true, Urgent: true,
+				cfg := Cfg{T: 1 + rng.Intn(3), Tries: []int{1, 2, 3, 4, -1, -3}[rng.Intn(6)], BufCap: []int{1, 5}[rng.Intn(2)], V4: v4, Timed: true, Urgent: true,
 					Mode: "stream", Xid: [][]int{{7}, {7, 8}, {7, 7}}[rng.Intn(3)]}
 				runOne(cfg, "stream", func(s *Sim) { s.streamRun() })
 				stats["stream_runs"]++
